@@ -615,10 +615,12 @@ type c34Probe struct {
 	tag     *int
 }
 
-func (q c34Probe) Key() any { return struct {
-	Tag *int
-	ID  int
-}{q.tag, q.id} }
+func (q c34Probe) Key() any {
+	return struct {
+		Tag *int
+		ID  int
+	}{q.tag, q.id}
+}
 
 func (q c34Probe) Execute(*incremental.Task) (int, error) {
 	q.arrive.Done()
